@@ -60,6 +60,20 @@ func Reset() {
 	clock = 1_700_000_000_000_000_000
 }
 
+// LoadReplayFile makes the values of one solver model the inputs of the next harness run.
+func LoadReplayFile(path string) error {
+	Reset()
+	mu.Lock()
+	defer mu.Unlock()
+	rf = replayFile{}
+	loaded = true
+	b, err := os.ReadFile(path)
+	if err != nil {
+		return err
+	}
+	return json.Unmarshal(b, &rf)
+}
+
 func uname(name string) string {
 	mu.Lock()
 	defer mu.Unlock()
